@@ -130,6 +130,10 @@ func buildOverlay(verifDir, specDir string, spec *Spec) (map[string][]byte, []st
 	return ov, pats, nil
 }
 
+var depSyntaxPkgs = []string{
+	"github.com/cosmos/cosmos-sdk/types",
+}
+
 func LoadWorld(overlay map[string][]byte, patterns []string) (*World, error) {
 	env := append(os.Environ(), "GOFLAGS=-mod=mod", "GOPROXY=off", "GOSUMDB=off", "GOTOOLCHAIN=local")
 	// phase 1: repo-internal import closure of the harness packages
@@ -149,6 +153,8 @@ func LoadWorld(overlay map[string][]byte, patterns []string) (*World, error) {
 	for p := range closure {
 		pats = append(pats, p)
 	}
+	// dependency packages whose real source is executed too (instead of intrinsics)
+	pats = append(pats, depSyntaxPkgs...)
 	sort.Strings(pats)
 	cfg := &packages.Config{
 		Mode: packages.NeedName | packages.NeedFiles | packages.NeedCompiledGoFiles | packages.NeedImports |
